@@ -48,7 +48,7 @@ CHECKS = {
           "with a 600 s step span two shard groups); background compaction and out-of-order merge are switched off through /debug/ctrl "
           "and the memtable's cold flush through [data.memtable], so that layouts are the ones the check builds (level compaction is "
           "not forced: there is no control endpoint for it); GROUP BY time queries always carry both time bounds; fill(<number>) only for "
-          "numeric results; ten open findings F-C08-1..10 are re-observed on the unchanged tree: F-C08-1, 2, 4, 5 are attributed "
+          "numeric results; nine open findings F-C08-1..9 are re-observed on the unchanged tree: F-C08-1, 2, 4, 5 are attributed "
           "only when the answer is one the finding's deviation model (evaluated by TLC) predicts, F-C08-3 (binary_tree_merge returns "
           "empty answers) by one sentinel query per server with the switch otherwise off, F-C08-9 (pick among tied points depends on "
           "the configuration) when two specification-accepted answers differ, and F-C08-6, 7, 8 by predicate (aggregate with a condition "
@@ -71,8 +71,10 @@ CHECKS = {
   "note": "Bounds of the cfg files (2 tag keys, 2-3 values, 1-8 shards per group, 2-4 groups, RANGE with 1-2 split points); in process "
           "(real metaclient.Client over real meta.Data, meta commands applied directly, recording store); tag/field/measurement names, group "
           "duration, extra tags and time literal syntax drawn per case from the seed; hint queries, column store, offline partitions and "
-          "the black-box ptnum comparison of the design are not covered; open findings F-C11-1..5 are re-observed and attributed only "
-          "when the consulted set equals a deviation model's prediction exactly.",
+          "the black-box ptnum comparison of the design are not covered; F-C11-1, 2, 3, 5 were repaired by fix: commits in /repo (their "
+          "deviation models stay as mutation seeds; a regression is a violation); the open finding F-C11-4 is re-observed and attributed "
+          "only when the consulted set equals its deviation model's prediction exactly. Condition shapes: every depth-2 tree, random "
+          "depth-3 trees, left-deep AND/OR chains of 3-6 operands and conjunctive normal forms of tag equalities.",
   "technique": "TLA+ spec (Routing.tla) model-checked by TLC; TLC-generated (setup, rows, condition) cases replayed into the real points writer and shard mapper",
  },
  "C17": {
@@ -92,9 +94,9 @@ CHECKS = {
           "payloads, so rotation by the 32 MiB size limit is not exercised; clean Close/Init only (no crash points); domain: saves continue, "
           "overlap or conflict above the snapshot index without gaps, CreateSnapshot for stored indexes newer than the current snapshot; "
           "installing a snapshot beyond the end of the log (ApplySnapshot) is not explored (a probe shows the old entries stay readable); "
-          "entry-file-rw-type 2 in ~80% and 1 in ~20% of the cases; open findings F-C17-1 (payload of a file's first entry lost after a "
-          "truncation into that file + reopen) and F-C17-2 (Term classification outside the stored slots) are re-observed and attributed "
-          "only when the real result equals the deviation model's prediction exactly.",
+          "entry-file-rw-type 2 in ~80% and 1 in ~20% of the cases; F-C17-1 (payload of a file's first entry lost after a "
+          "truncation into that file + reopen) was repaired by a fix: commit in /repo; the open finding F-C17-2 (Term classification outside "
+          "the stored slots) is re-observed and attributed only when the real result equals the deviation model's prediction exactly.",
   "technique": "TLA+ spec (RaftStorage.tla) model-checked by TLC; TLC-generated behaviours replayed into the real RaftDiskStorage with comparison of all read operators after every action",
  },
  "C12": {
@@ -112,9 +114,10 @@ CHECKS = {
   "note": "Bounds of the cfg files (depth 3/4 exhaustive, depth 5 sampled); literal and identifier classes get concrete texts per "
           "occurrence from the seed; trees outside the statement grammar go through ParseExpr only; unary minus is compared with the "
           "product (-1 * x) the parsers build for it; plan codec with a series/index-scan/exchange plan and only for expressions the "
-          "planner accepts as a field. Eight open findings (F-C12-1..8: integral float printed as integer, unary minus loses grouping, "
+          "planner accepts as a field. Findings F-C12-1..8 (integral float printed as integer, unary minus loses grouping, "
           "AND/OR precedence of sql.y, integer saturation in yyParser.Lex, sub-microsecond durations, bitwise operators unknown to "
-          "ParseExpr, unquoted sort field names, non-float fill value dropped) are re-observed and attributed only when the real result equals the prediction of "
+          "ParseExpr, unquoted sort field names, non-float fill value dropped): F-C12-5, 6, 7 were repaired by fix: commits in /repo; the open ones "
+          "(F-C12-1, 2, 3, 4, 8) are re-observed and attributed only when the real result equals the prediction of "
           "the finding's deviation model exactly.",
   "technique": "TLA+ spec (ExprRoundTrip.tla) model-checked by TLC; TLC-generated expression trees and token texts replayed into the real parsers, printer and shipping codecs with structural comparison",
  },
@@ -142,7 +145,7 @@ CHECKS = {
           "path rejects null primary keys; record.SortHelper would put them first); selecting more or fewer fragments than the "
           "specification while staying sound is recorded as drift; the min-max reader has no production ReadFunc and its writer writes "
           "nothing, it is given the sorted first key column and is not driven with null bounds (a null bound makes it overwrite the "
-          "shared NEGATIVE_INFINITY sentinel); the set writer writes nothing. Open findings F-C20-1..6 are re-observed on the unchanged "
+          "shared NEGATIVE_INFINITY sentinel); the set writer writes nothing. F-C20-1 and F-C20-2 were repaired by fix: commits in /repo; the open findings F-C20-3..6 are re-observed on the unchanged "
           "tree and attributed only when the case satisfies the finding's predicate and the real result equals the deviation model's "
           "prediction exactly (F-C20-2, F-C20-6: differential predictor, see known_findings.json); query failures (F-C20-3) are "
           "reported, not counted as wrong pruning.",
@@ -315,7 +318,7 @@ CHECKS = {
           "engine kind: live groups pairwise disjoint, each inside one window of the duration it was created with, slice sorted by end/start), "
           "IdsUnique, IdsNeverReused (history variable of identifiers ever handed out), RefsValid (shard -> index of its policy, owner "
           "partitions and their nodes exist), DefaultPolicyExists, FailedCommandIsNoop and NoPanic over two bounded command alphabets "
-          "(policies / shard groups with timestamps on and around boundaries; databases / measurements / users) ; ten mutation seeds each give "
+          "(policies / shard groups with timestamps on and around boundaries; databases / measurements / users) ; nine mutation seeds each give "
           "a TLC counterexample. The behaviours shared with C15 (timestamps on, one nanosecond before/after and inside hour, two- and "
           "three-hour windows, models.MinNanoTime and MaxNanoTime; duration changes between creations; deletes and prunes; unknown names, "
           "duplicates, deletes of absent objects) are replayed into real meta.Data; after EVERY command the return class and the projection of "
